@@ -556,4 +556,83 @@ theorem firstPass_sk (P : Params) : ∀ t : Tree, (firstPass P t).sk = Sk.ofTree
 theorem layout_sk (P : Params) (t : Tree) : (layout P t).sk = Sk.ofTree t := by
   rw [layout_eq, fin_sk, firstPass_sk]
 
+/-! ## the fuel of `getSubtreeShift` never runs out -/
+
+theorem heightL_le_iff {n : Nat} : ∀ {l : List PT}, PT.height.heightL l ≤ n ↔ ∀ k ∈ l, k.height ≤ n
+  | [] => by simp [PT.height.heightL]
+  | c :: cs => by
+    simp only [PT.height.heightL, List.mem_cons, forall_eq_or_imp, ← heightL_le_iff (l := cs)]
+    omega
+
+theorem height_pos : ∀ t : PT, 1 ≤ t.height
+  | .node _ _ _ _ => by simp [PT.height]
+
+theorem height_children (t : PT) : PT.height.heightL t.children + 1 = t.height := by
+  cases t; simp [PT.height]; omega
+
+theorem scanLeft_mem : ∀ (sibs : List PT) (cur : PT), scanLeft cur sibs ∈ cur :: sibs
+  | [], cur => by simp [scanLeft]
+  | l :: ls, cur => by
+    simp only [scanLeft]
+    split
+    · have := scanLeft_mem ls l
+      exact List.mem_cons_of_mem _ this
+    · simp
+
+/-- bound on the number of recursive calls: the height of the (scanned) left subtree -/
+def fuelBound (initial : Bool) (left : PT) (lsibs : List PT) : Nat :=
+  if initial then left.height else PT.height.heightL (left :: lsibs)
+
+theorem gss_fuel (sub : Rat) (li ri : Nat) : ∀ (f1 f2 : Nat) (left : PT) (lsibs : List PT) (right : PT)
+    (rsibs : List PT) (lcum rcum cum : Rat) (initial : Bool),
+    fuelBound initial left lsibs ≤ f1 → fuelBound initial left lsibs ≤ f2 →
+    getSubtreeShift sub li ri f1 left lsibs right rsibs lcum rcum cum initial =
+      getSubtreeShift sub li ri f2 left lsibs right rsibs lcum rcum cum initial := by
+  intro f1
+  induction f1 with
+  | zero =>
+    intro f2 left lsibs right rsibs lcum rcum cum initial h1 _
+    have := height_pos left
+    unfold fuelBound at h1
+    cases initial <;> simp [PT.height.heightL] at h1 <;> omega
+  | succ f1 ih =>
+    intro f2 left lsibs right rsibs lcum rcum cum initial h1 h2
+    cases f2 with
+    | zero =>
+      have := height_pos left
+      unfold fuelBound at h2
+      cases initial <;> simp [PT.height.heightL] at h2 <;> omega
+    | succ f2 =>
+      simp only [getSubtreeShift]
+      have hl : (if initial = true then left else scanLeft left lsibs).height ≤
+          fuelBound initial left lsibs := by
+        unfold fuelBound
+        cases initial
+        · simp only [Bool.false_eq_true, if_false]
+          exact heightL_le_iff.mp (Nat.le_refl _) _ (scanLeft_mem lsibs left)
+        · simp
+      split
+      · next lc lrest rc rrest hrev _ =>
+        have hb : fuelBound false lc lrest + 1 ≤ fuelBound initial left lsibs := by
+          refine Nat.le_trans ?_ hl
+          rw [← height_children]
+          apply Nat.succ_le_succ
+          simp only [fuelBound, Bool.false_eq_true, if_false]
+          apply heightL_le_iff.mpr
+          intro k hk
+          have hk' : k ∈ (if initial = true then left else scanLeft left lsibs).children := by
+            have : k ∈ (if initial = true then left else scanLeft left lsibs).children.reverse := by
+              rw [hrev]; exact hk
+            simpa using this
+          exact heightL_le_iff.mp (Nat.le_refl _) k hk'
+        exact ih f2 lc lrest rc rrest _ _ _ false (by omega) (by omega)
+      · rfl
+
+/-- the fuel handed out by `maxShift` (`height + 1`) is enough: any larger amount gives the same
+    result, so the out-of-fuel branch of `getSubtreeShift` is never taken by `firstPass` -/
+theorem gss_fuel_sufficient (sub : Rat) (li ri : Nat) (l node : PT) (extra : Nat) :
+    getSubtreeShift sub li ri (l.height + 1 + extra) l [] node [] 0 0 0 true =
+      getSubtreeShift sub li ri (l.height + 1) l [] node [] 0 0 0 true :=
+  gss_fuel sub li ri _ _ l [] node [] 0 0 0 true (by simp [fuelBound]; omega) (by simp [fuelBound])
+
 end Plot
